@@ -156,16 +156,19 @@ theorem ninv_step {n : Node} (h : NInv n) (e : NEv) (hok : NEvOk n e) : NInv (ns
   | cancel req =>
     simp only [nstep]
     split
+    · exact h
+    split
     · rename_i a ha
       split
       · exact ⟨h.fixed, by intro hn; simp only at hn; rw [hn] at ha; simp at ha, h.live⟩
-      · apply ninv_startNew h.fixed
-        intro a' ha'; simp at ha'
+      · apply ninv_startNew
+        · exact h.fixed
+        · intro a' ha'; simp at ha'
     · rename_i ha
-      simp only at ha
+      have ha' : n.active = none := ha
       refine ⟨h.fixed, ?_, h.live⟩
       intro _
-      simp [h.served ha]
+      simp [h.served ha']
   | gotShares l =>
     simp only [nstep]
     split
@@ -195,6 +198,9 @@ theorem ninv_step {n : Node} (h : NInv n) (e : NEv) (hok : NEvOk n e) : NInv (ns
       · exact ⟨h.fixed, h.served, h.live⟩
       · exact h
   | loop g => exact ninv_fetcherEv h _ _ (by simp) (by intro _ _ _; trivial)
+
+theorem ninv_init (k numSegs : Nat) (badSegs : List Nat) : NInv (initNode k numSegs badSegs) := by
+  constructor <;> simp [initNode]
 
 theorem ninv_run : ∀ (es : List NEv) (n : Node), NInv n → NValidFrom n es → NInv (nrun n es) := by
   intro es
@@ -239,7 +245,8 @@ theorem acc_fetcherEv {n : Node} {sub can : List Nat} (h : Accounted n sub can) 
   · exact h
   · split
     · exact h
-    · split
+    · dsimp only
+      split
       · unfold fetchFailed
         exact acc_startNew (acc_retire (acc_congr h rfl rfl) _ _)
       · unfold processBlocks
@@ -276,6 +283,12 @@ theorem acc_step {n : Node} {sub can : List Nat} (h : Accounted n sub can) (e : 
       · right; left; exact h1
       · right; right; simp [h1]
     split
+    · intro r hr
+      rcases h r hr with h1 | h1 | h1
+      · left; exact h1
+      · right; left; exact h1
+      · right; right; simp [h1]
+    split
     · split
       · exact hbase
       · exact acc_startNew (acc_congr hbase rfl rfl)
@@ -283,14 +296,17 @@ theorem acc_step {n : Node} {sub can : List Nat} (h : Accounted n sub can) (e : 
   | gotShares l =>
     simp only [nstep, submitted, cancelled, List.append_nil]
     split
-    · exact acc_fetcherEv (acc_congr h rfl rfl) _ _
+    · refine acc_fetcherEv ?_ _ _
+      exact acc_congr h rfl rfl
     · exact acc_congr h rfl rfl
   | noMoreShares =>
     simp only [nstep, submitted, cancelled, List.append_nil]
     split
     · exact acc_fetcherEv h _ _
     · exact h
-  | uebKnown => simpa [nstep, submitted, cancelled] using acc_congr h rfl rfl
+  | uebKnown =>
+    simp only [nstep, submitted, cancelled, List.append_nil]
+    exact acc_congr h rfl rfl
   | share g sh st =>
     simp only [nstep, submitted, cancelled, List.append_nil]
     apply acc_fetcherEv
